@@ -143,7 +143,7 @@ func callsOpFuncs(w *World, fn *ssa.Function) bool {
 // inlineHelpers: walk into compiler methods that are neither node evaluators
 // (other than operand wrappers), nor operator functions, nor the predicate.
 func (m *infixModel) inlineHelpers(caller, callee *ssa.Function) bool {
-	pkg, obj := callee.Pkg, callee.Object()
+	pkg, obj := pkgOf(callee), fnObject(callee)
 	if o := callee.Origin(); o != nil {
 		pkg, obj = o.Pkg, o.Object() // an instance of a generic helper
 	}
@@ -153,7 +153,7 @@ func (m *infixModel) inlineHelpers(caller, callee *ssa.Function) bool {
 	if !m.w.isCompilerMethod(callee) || m.tables[callee] != nil || callee == m.truthy {
 		return false
 	}
-	if obj, ok := callee.Object().(*types.Func); ok {
+	if obj, ok := fnObject(callee).(*types.Func); ok {
 		if _, isWrapper := m.w.operandWrappers()[obj]; isWrapper {
 			return true
 		}
